@@ -21,7 +21,8 @@ Lemma own_ok_all v : own_ok G v = true.
 Proof. destruct v; [exact own_ok_ts|exact own_ok_nts]. Qed.
 
 (** For every file -> settings function that depends on the record's fields only, every history of files (rewritten, emptied,
-    deleted = None, corrupted), every garbage in freshly allocated records, both variants, from a fresh process (or any state
+    deleted = None, corrupted), every garbage in freshly allocated records, WHATEVER the use phase of a call writes into the record's settings
+    ([h_use]; the skeleton facts show it writes no pointer field and no flag), both variants, from a fresh process (or any state
     in which the record is uninitialised or at its defaults): the effective configuration of call k is [parse defaults file_k]. *)
 Theorem C11_history_free : forall (val file : Type) (dv : cfg val) (parse : cfg val -> option file -> cfg val),
     (forall c c' fl, (forall f, In f (g_fields G) -> c f = c' f) -> forall f, In f (g_fields G) -> parse c fl f = parse c' fl f) ->
